@@ -11,16 +11,35 @@ NOTE = ("Trusted base: go/packages+go/ssa (x/tools v0.29.0), the symgo interpret
 
 CLAIMED = {
  # id: (text, design_ref)
+ "C01": ("Agreement of the real select/validate/commit/derive functions of both roles on the same hello/key-exchange messages (key block mirror, master secret, exporter, connection IDs, SRTP, ALPN, suite, version) for all symbolic secrets, randoms and lists within the stated sizes; crypto primitives are uninterpreted. Delivery schedules are outside.", "§5 C01"),
+ "C03": ("Accept/reject decision logic of the DTLS 1.2 server (flight4Parse), DTLS 1.2 client (flight3Parse/initializeCipherSuite/flight5Parse) and the DTLS 1.3 protected-flight verifier over every client-auth policy x message presence x verification outcome (signature/x509 routines are stubs with arbitrary verdicts whose arguments are checked).", "§5 C03"),
+ "C04": ("Finished verification covers the whole transcript in RFC order on both sides for full, resumed and DTLS 1.3 handshakes; EMS session hash input; hash/PRF uninterpreted (named collision-freedom assumption).", "§5 C04"),
+ "C05": ("Receive path of Conn on one arbitrary protected record (legacy and DTLS 1.3 layouts) with an arbitrary authentication verdict: delivery only if authentic/non-zero epoch/right CID/fresh sequence number, forgeries vanish without alert or state change and the genuine record is still accepted; injectivity of AAD/nonce/MAC inputs and clean failure of every decrypt function.", "§5 C05"),
  "C06": ("One-step inductive lemma of the real sliding-window detector from an arbitrary window state (all 2^64 bitmaps, all sequence numbers, "
          "window sizes per tier): an accepted number is never accepted again, a number fewer than W behind the newest and not yet seen passes, "
          "accept() records exactly the new number. Holds for histories of any length by induction; delivery schedules are not enumerated.", "§5 C06"),
- "C08": ("Panic-freedom of the wire decoders and receive-path units on every byte string up to the stated lengths (all contents symbolic); "
+ "C07": ("Send-path data flow on a constructed Conn: the datagram handed to the network is exactly the cipher's output (fresh symbolic bytes), application records never carry epoch 0, alerts are encrypted iff established, DTLS 1.3 records go through Seal; exporters are keyed with the master / exporter master secret, never public data.", "§5 C07"),
+ "C08": ("Panic-freedom of the wire decoders and receive-path units on every byte string up to the stated lengths (all contents symbolic), "
+         "fragment-buffer and decrypt paths with dishonest/authenticated-but-malformed input, buffering caps as one-step invariants; "
          "any escaping Go panic is a violation replayed against the native build.", "§5 C08"),
  "C09": ("Sequence-number allocation step from an arbitrary counter and the number written on the wire / given to the cipher by processPacket "
          "and processHandshakePacket (plain and CID layouts) for all counter values; overflow at 2^48 refused.", "§5 C09"),
- "C18": ("Round-trip / fixed-point / declared-length obligations of the real codecs for all field values and all byte strings within the "
+ "C10": ("Structural equality of the real derivations and record layouts with references written from the RFC text, for all symbolic secrets, randoms, sequence numbers, epochs, CIDs and payloads within the stated sizes; hash/HMAC/AES/AEAD/ChaCha are uninterpreted functions.", "§5 C10"),
+ "C11": ("Every selection function (version, suite, curve, SRTP, ALPN, signature scheme, EMS policy, response extensions) returns a value inside both symbolic option sets or fails with an alert; flight-level hello exchanges between two real endpoints.", "§5 C11"),
+ "C12": ("fragmentHandshake/SplitBytes produce a contiguous partition within the MTU for every length/MTU in bounds; FragmentBuffer reassembles exactly, once, in order for every arrival order/duplication/interleaving of honest pieces within the stated message sizes and push counts; cache insertion once.", "§5 C12"),
+ "C13": ("Cookie gate of both versions: Flight4 only after an exact echo of the issued cookie with unchanged hello fields (reference comparison written from the RFC layout), only a cookie request is generated before that, cookie flights are not retransmitted by the timer (real FSM loops with fake timer), cookie bytes are fresh randomness.", "§5 C13"),
+ "C14": ("Resumption decision and Finished checks of both real endpoints on arbitrary stored secrets (mismatched secrets never complete), fresh CIDs/randoms, fatal alert drops the session before the alert is written, client certificate disables resumption.", "§5 C14"),
+ "C15": ("CID on every protected record sent, datagram routing by CID for every source address, RRC amplification invariant (one inductive step, overflow-safe), path response accepted only when pending/equal/in time, peer address changes only in the validated branch.", "§5 C15"),
+ "C17": ("Timer law (double, cap 60 s, constant without backoff, reset only on non-retransmitted data) for every interval value, real FSM loops (1.2 and 1.3) under every schedule of a few timer expiries and stale events against a trace model, cookie flights never timer-retransmitted, final flight re-sent only for a peer retransmission.", "§5 C17"),
+ "C18": ("Round-trip / fixed-point / declared-length / truncation / datagram-partition obligations of the real codecs for all field values and all byte strings within the "
          "stated length bounds.", "§5 C18"),
+ "C19": ("serialize/deserialize identity on every field, export->import preserves parameters, key ordering and the next sequence number (gob treated as identity: named assumption), DTLS 1.3 refused, any decoded serializedState never panics.", "§5 C19"),
+ "C20": ("Step relations of DTLS 1.3 key updates: write/read generation steps, RFC 8446 traffic-update successor, epoch gate of ReadCandidates/openCiphertextRecord, sequence-number reconstruction for all 48-bit values, completion iff every KeyUpdate fragment acknowledged. Concurrency outside.", "§5 C20"),
 }
+import os as _os
+# only claim what has harnesses on disk and is listed as green in tools/green.txt
+_green = set(open(_os.path.join(ROOT, 'tools', 'green.txt')).read().split()) if _os.path.exists(_os.path.join(ROOT, 'tools', 'green.txt')) else set()
+CLAIMED = {k: v for k, v in CLAIMED.items() if k in _green}
 NA = {
  "C02": "liveness of two live endpoints with goroutines, timers and real cryptography under loss schedules: the composed system cannot be encoded for a solver within reach (DESIGN.md §6); the safety steps it relies on are checked under C17, C12, C06",
  "C16": "purely a property of goroutine schedules (Close/alerts/deadlines racing on any goroutine, data races, leaks); the symbolic executor is single-threaded by construction (DESIGN.md §6)",
